@@ -437,7 +437,11 @@ func (fr *frame) lenOf(st *State, v *Value, t types.Type) *Term {
 	case *types.Basic:
 		return StrLen(v.S)
 	case *types.Map:
-		return Ite(Eq(v.S, mkInt(0)), mkInt(0), st.mapCard(u, v.S))
+		// finite-set fact: a map of cardinality 0 has no keys (and cardinalities are non-negative)
+		card := st.mapCard(u, v.S)
+		k := mkBVar(freshName("k"), keySort(u))
+		st.assume(Ge(card, mkInt(0)), Implies(And(Neq(v.S, mkInt(0)), Eq(card, mkInt(0))), Forall([]*Term{k}, Not(Select(st.mapDom(u, v.S), k)))))
+		return Ite(Eq(v.S, mkInt(0)), mkInt(0), card)
 	case *types.Chan:
 		n := mkVar(freshName("chanlen"), SInt)
 		st.assume(Ge(n, mkInt(0)))
